@@ -25,6 +25,9 @@ def scenario(rng, tier):
         batch = []
         for j in range(n_msgs):
             data = ("s%d-m%d-%d" % (i, j, rng.below(10 ** 6))).encode()
+            if j % 3 == 1:
+                # bytes whose base64 uses both alphabet-specific characters ('+' and '/')
+                data = b"\xfb\xef\xbe\xff\xfe\x3e\x3f" + data
             k = rng.choice([0, 0, 1, 1, 2, 3])
             outcomes = []
             for _ in range(k):
